@@ -225,3 +225,51 @@ pub fn mutate_line(rng: &mut Rng, line: &[u8]) -> Vec<u8> {
     }
     l
 }
+
+const SOUP: &[&[u8]] = &[
+    b"\n", b"\r", b"\r\n", b"    ", b" ", b"#", b" -> ", b"->", b":", b"(", b")", b".", b"a", b"b.C", b"void", b"1", b"0", b"12",
+    b"# {\"id\":\"sourceFile\",\"fileName\":\"", b"\"", b"\"}", b"\xb2", b"\xbd", b"\xff", b"\xc3", b"\xc3\xa9", b"\xe2\x80\x83",
+    b"99999999999999999999999999", b"18446744073709551615", b"18446744073709551616", b"4294967295", b"\t", b"\x00", b"\xc2\xa0",
+    b"a -> b:", b"    int f -> g", b"    1:2:void m():3:4 -> n", b"# k: v",
+];
+
+/// G-bytes: random bytes, token soups, invalid UTF-8, Latin-1 "numeric" bytes, digit runs,
+/// unterminated sourceFile headers followed by ordinary lines
+pub fn byte_soup(rng: &mut Rng) -> Vec<u8> {
+    let mut out = vec![];
+    match rng.below(6) {
+        0 => {
+            for _ in 0..rng.range(0, 40) {
+                out.push(rng.below(256) as u8);
+            }
+        }
+        1 => {
+            // unterminated sourceFile header, then well-formed lines
+            out.extend_from_slice(b"a -> b:\n# {\"id\":\"sourceFile\",\"fileName\":\"");
+            for _ in 0..rng.range(0, 3) {
+                out.extend_from_slice(rng.pick(SOUP));
+            }
+            out.extend_from_slice(b"\n    int f -> g\nc -> d:\n    void m() -> n\"}\n");
+        }
+        _ => {
+            for _ in 0..rng.range(0, 12) {
+                out.extend_from_slice(rng.pick(SOUP));
+                if rng.chance(1, 4) {
+                    out.push(b'\n');
+                }
+            }
+        }
+    }
+    out
+}
+
+/// a few random line-level mutations of a whole file
+pub fn mutate_file(rng: &mut Rng, src: &[u8]) -> Vec<u8> {
+    let mut lines: Vec<Vec<u8>> = src.split(|b| *b == b'\n').map(|l| l.to_vec()).collect();
+    for _ in 0..rng.range(1, 8) {
+        let i = rng.below(lines.len());
+        let l = lines[i].clone();
+        lines[i] = mutate_line(rng, &l);
+    }
+    lines.join(&b'\n')
+}
